@@ -17,6 +17,7 @@ import (
 	"sync/atomic"
 
 	"github.com/mlange-42/arche/ecs"
+	"verifharness/gen14"
 	"verifharness/gen18"
 	"verifharness/runner"
 	"verifharness/sim"
@@ -287,6 +288,136 @@ func c19SharedDump(rp *runner.Report) {
 	rp.Trans += int(execs)
 	rp.Extra["shared_dump"] = map[string]interface{}{"histories_world1": len(h1), "histories_world2": len(h2), "history_length": length, "merged_executions": execs}
 	fmt.Printf("  shared dump: %d x %d histories, %d merge orders each: %d merged executions\n", len(h1), len(h2), len(ms), execs)
+}
+
+// c19PointerWorlds: two worlds that register different pointer-bearing component types under the same component ID, and a
+// Config slice shared between NewWorld calls; all merge orders of two short scripted histories.
+func c19PointerWorlds(rp *runner.Report) {
+	type step func() string
+	mkA := func() (w *ecs.World, steps []step) {
+		world := ecs.NewWorld(ecs.NewConfig().WithCapacityIncrement(1))
+		w = &world
+		id := ecs.ComponentID[gen14.PC](w) // ID 0: struct{P *Obj}
+		a := ecs.ComponentID[sim.CompA](w)
+		var e1, e2 ecs.Entity
+		read := func(e ecs.Entity) string {
+			p := (*gen14.PC)(w.Get(e, id))
+			if p == nil || p.P == nil {
+				return "nil"
+			}
+			return fmt.Sprint(p.P.Canary)
+		}
+		steps = []step{
+			func() string {
+				e1 = w.NewEntityWith(ecs.Component{ID: id, Comp: &gen14.PC{P: &gen14.Obj{Canary: 11}}})
+				return read(e1)
+			},
+			func() string {
+				e2 = w.NewEntityWith(ecs.Component{ID: id, Comp: &gen14.PC{P: &gen14.Obj{Canary: 12}}})
+				return read(e2)
+			},
+			func() string { w.Add(e1, a); return read(e1) + read(e2) },
+			func() string { w.RemoveEntity(e2); return read(e1) },
+		}
+		return
+	}
+	mkB := func() (w *ecs.World, steps []step) {
+		world := ecs.NewWorld(ecs.NewConfig().WithCapacityIncrement(2))
+		w = &world
+		id := ecs.ComponentID[gen14.IfaceC](w) // ID 0: struct{ID int; Value any}
+		a := ecs.ComponentID[sim.CompA](w)
+		var e1, e2 ecs.Entity
+		read := func(e ecs.Entity) string {
+			p := (*gen14.IfaceC)(w.Get(e, id))
+			if p == nil {
+				return "nil"
+			}
+			return fmt.Sprint(p.ID, p.Value)
+		}
+		steps = []step{
+			func() string {
+				e1 = w.NewEntityWith(ecs.Component{ID: id, Comp: &gen14.IfaceC{ID: 21, Value: "x"}})
+				return read(e1)
+			},
+			func() string {
+				e2 = w.NewEntityWith(ecs.Component{ID: id, Comp: &gen14.IfaceC{ID: 22, Value: 2.5}})
+				return read(e2)
+			},
+			func() string { w.Add(e1, a); return read(e1) + read(e2) },
+			func() string { w.Remove(e1, a); w.RemoveEntity(e2); return read(e1) },
+		}
+		return
+	}
+	solo := func(mk func() (*ecs.World, []step)) []string {
+		_, st := mk()
+		out := []string{}
+		for _, s := range st {
+			out = append(out, s())
+		}
+		return out
+	}
+	refA, refB := solo(mkA), solo(mkB)
+	execs := 0
+	for _, m := range merges(4, 4) {
+		_, sa := mkA()
+		_, sb := mkB()
+		ia, ib := 0, 0
+		hist := []string{}
+		bad := ""
+		pv := catchP(func() {
+			for _, first := range m {
+				if first {
+					got := sa[ia]()
+					hist = append(hist, fmt.Sprintf("world1 step %d -> %s", ia, got))
+					if got != refA[ia] && bad == "" {
+						bad = fmt.Sprintf("world 1 (component ID 0 = struct{P *Obj}) reads %q at step %d, alone it reads %q", got, ia, refA[ia])
+					}
+					ia++
+				} else {
+					got := sb[ib]()
+					hist = append(hist, fmt.Sprintf("world2 step %d -> %s", ib, got))
+					if got != refB[ib] && bad == "" {
+						bad = fmt.Sprintf("world 2 (component ID 0 = struct{ID int; Value any}) reads %q at step %d, alone it reads %q", got, ib, refB[ib])
+					}
+					ib++
+				}
+			}
+		})
+		execs++
+		if pv != nil && bad == "" {
+			bad = fmt.Sprintf("panic: %v", pv)
+		}
+		if bad != "" {
+			rp.Violation(&runner.ReplayFile{Scenario: "c19-pointer-worlds", Sig: "isolation:pointer-components", Msg: bad, OpsText: hist, Kind: "c19"})
+			break
+		}
+	}
+	// a Config slice re-used for several NewWorld calls
+	cfgs := []ecs.Config{ecs.NewConfig().WithCapacityIncrement(8)}
+	w1 := ecs.NewWorld(cfgs...)
+	cfgs[0].CapacityIncrement = 64
+	w2 := ecs.NewWorld(cfgs...)
+	w3 := ecs.NewWorld(ecs.NewConfig().WithCapacityIncrement(64))
+	caps := func(w *ecs.World) string {
+		r := ecs.ComponentID[sim.CompR](w)
+		t := w.NewEntity()
+		ecs.NewBuilder(w, r).WithRelation(r).New(t)
+		out := []int{}
+		for _, n := range w.Stats().Nodes {
+			out = append(out, n.Capacity)
+		}
+		return fmt.Sprint(out)
+	}
+	_ = caps(&w1)
+	if c2, c3 := caps(&w2), caps(&w3); c2 != c3 {
+		rp.Violation(&runner.ReplayFile{Scenario: "c19-shared-config", Sig: "isolation:config", Kind: "c19",
+			Msg:     fmt.Sprintf("a world created from a Config slice that was used for another world before has table capacities %s, a world with the same settings created from a fresh Config has %s", c2, c3),
+			OpsText: []string{"cfgs := []Config{NewConfig().WithCapacityIncrement(8)}", "w1 := NewWorld(cfgs...)", "cfgs[0].CapacityIncrement = 64", "w2 := NewWorld(cfgs...)", "compare with NewWorld(NewConfig().WithCapacityIncrement(64))"}})
+	}
+	rp.Trans += execs + 3
+	rp.States += execs
+	rp.Extra["pointer_component_worlds"] = map[string]interface{}{"merged_executions": execs, "steps_per_world": 4}
+	fmt.Printf("  pointer-component worlds: %d merge orders of two scripted histories; shared Config slice\n", execs)
 }
 
 // c19OpenQueries: two worlds with queries (plain, registered and batch-result queries) open at the same time.
@@ -586,6 +717,7 @@ func init() {
 		c19Interleave(rp)
 		c19SharedDump(rp)
 		c19OpenQueries(rp)
+		c19PointerWorlds(rp)
 		c19Race(rp)
 		c19Scan(rp)
 		rp.NoRuns = true
